@@ -143,6 +143,13 @@ Definition dispatch (req : list Z) : list Z :=
                    eoutcome (ewres fx) (match b with
                                         | 0 => fxp_bitwise BAnd fx cx yf nwy cy r o | 1 => fxp_bitwise BOr fx cx yf nwy cy r o
                                         | 2 => fxp_bitwise BXor fx cx yf nwy cy r o | _ => fxp_invert fx cx r o end)) t
+  (* 61: bitwise model on arrays: op (0 and,1 or,2 xor,3 not) fx cxs y_is_fxp nwy cys r o -> outcome codes/flags *)
+  | 61 :: t => run (b <- dZ ;; fx <- dfmt ;; cxs <- dlist dZ ;; yf <- dbool ;; nwy <- dZ ;; cys <- dlist dZ ;; r <- drmode ;; o <- domode ;;
+                    dret (b, fx, cxs, yf, nwy, cys, r, o))
+                (fun '(b, fx, cxs, yf, nwy, cys, r, o) =>
+                   eoutcome (ewres fx) (match b with
+                                        | 0 => fxp_bitwise_arr BAnd fx cxs yf nwy cys r o | 1 => fxp_bitwise_arr BOr fx cxs yf nwy cys r o
+                                        | 2 => fxp_bitwise_arr BXor fx cxs yf nwy cys r o | _ => fxp_invert_arr fx cxs r o end)) t
   (* 70: renderings of (f, c): bin (no dot, no prefix), bin with dot and prefix, hex with prefix, base_repr b
      71: parsers: strbin2int / strhex2int of a digit string *)
   | 70 :: t => run (f <- dfmt ;; c <- dZ ;; pb <- dlist dZ ;; ph <- dlist dZ ;; base <- dZ ;; dret (f, c, pb, ph, base))
